@@ -53,5 +53,31 @@ PROPS['C15'] = dict(
     trusted=L('A4', 'A5', 'A10', 'A12') + ['history part ("survives the first signal, dies on the second") = per-delivery contract from an arbitrary flag state + C02 order; the induction over histories is by DESIGN.md section C15'],
     explanation='Kani proves the contract of the closures built by the real flag::register* for all prior flag values, all statuses, all signal numbers; deliveries are modelled by a stub of signal_hook_registry::register that runs the captured closure twice.')
 
+import replay as _R
+REPLAYERS['C16.KIND'] = _R.replay_c16_kind
 HOOK_COMMITS = []
 NOT_APPLICABLE = {}
+
+# --------------------------------------------------------------------------------------------
+UNITS['sigdetails'] = dict(
+    name='sigdetails', engine='kani', crate='.', inject=[('src/low_level/signal_details.rs', K + 'signal_details.rs')], flags=FFI,
+    scan=[K + 'libc_model.rs', K + 'libc_shim.c', K + 'signal_spec.rs'],
+    harnesses={
+        'c16_emulate': dict(props=['C16']),
+        'c16_name': dict(props=['C16']),
+        'c16_oor_name': dict(props=['C16']),
+    })
+F16 = 'low_level::emulate_default_handler'
+obl('C16.KIND', F16, 'which flow runs equals the platform default of the signal (oracle: transcribed signal(7) table): terminate / stop / continue; terminate flow never returns')
+obl('C16.SEQ-TERM', F16, 'terminate flow = sigaction(sig,{SIG_DFL},NULL) ok, sigemptyset, sigaddset(sig), sigprocmask(SIG_UNBLOCK), raise(sig)')
+obl('C16.UNBLOCK-BEFORE-RAISE', F16, 'sig is unblocked (exactly {sig}) after the default is restored and before the raise')
+obl('C16.ABORT-FALLBACK', F16, 'abort() is reached iff the restore failed or the raise returned')
+obl('C16.DIRECT', F16, 'SIGKILL/SIGSTOP: raise(sig) only, verdict returned')
+obl('C16.UNKNOWN', F16, 'unknown signal: Err(EINVAL) and an empty libc trace')
+obl('C16.NO-EXIT', F16, 'never _exit/exit', never=True)
+obl('C16.NAME', 'low_level::signal_name', 'for all 0..=65: a returned name is a platform name of that number')
+obl('C16.NAME-RANGE', 'low_level::signal_name', 'all other c_int: None')
+PROPS['C16'] = dict(
+    level='proof', units=['sigdetails'],
+    trusted=L('A4', 'A5', 'A6', 'A10') + ['that the proved call sequence has the kernel default outcome (also inside the handler) is kernel semantics'],
+    explanation='Kani proves, for every c_int, that emulate_default_handler issues exactly the libc call sequence of the platform default kind (oracle: table transcribed from signal(7)), and signal_name only returns platform names.')
